@@ -148,6 +148,8 @@ func verifEncode(v any, n int) []byte
 func verifEventCount(kind string) int
 func verifEvent(kind string)
 func verifQuiesce()
+func verifFireTimers() int
+func verifArmedTimers() int
 `
 
 func pkgNameOf(src []byte) string {
